@@ -67,6 +67,12 @@ impl Family for C11Family {
         if !with_prf {
             actor.hmac = HmacCfg::None;
         }
+        // one cell run in four: an authenticator whose user verification is absent or not set up; the
+        // request then discourages verification so that the ceremony can run at all
+        let no_uv = r.chance(1, 4);
+        if no_uv {
+            actor.verification = *r.pick(&[None, Some(false)]);
+        }
         let rp = gen_rp(&mut r);
         let reg_kind;
         if cell < CLIENT_CELLS {
@@ -91,7 +97,9 @@ impl Family for C11Family {
             s.algs = vec![-7];
             s.exclude = None;
             s.sel = Some(Sel { rk, require_rk, uv: *r.pick(&[0, 1, 2]) });
-            if rk.is_none() && !require_rk && r.chance(1, 3) {
+            if no_uv {
+                s.sel = Some(Sel { rk, require_rk, uv: 2 });
+            } else if rk.is_none() && !require_rk && r.chance(1, 3) {
                 s.sel = None;
             }
             s.cred_props = cred_props;
@@ -105,6 +113,9 @@ impl Family for C11Family {
             let mut s = gen_mc(&mut r, rp_effective(rp));
             s.exclude = None;
             s.rk = n / 3 == 1;
+            if no_uv {
+                s.uv = false;
+            }
             reg_kind = OpKind::MakeCredential(s);
         }
         let contended = r.chance(1, 4);
@@ -161,7 +172,7 @@ impl Family for C11Family {
         let rec = run_and_measure(c, stats);
         let mut j = Judge::new("C11", scn, &rec);
         stats.cells_total = CELLS;
-        for p in ["cell_on_contended_store", "required_rk_refused_by_non_discoverable_store", "forced_discoverable_overrides_request", "cred_props_reported", "assertion_returned_user_handle", "assertion_without_user_handle", "capability_changed_before_registration", "cred_props_with_prf_on_hmac_authenticator"] {
+        for p in ["cell_on_contended_store", "required_rk_refused_by_non_discoverable_store", "forced_discoverable_overrides_request", "cred_props_reported", "assertion_returned_user_handle", "assertion_without_user_handle", "capability_changed_before_registration", "cred_props_with_prf_on_hmac_authenticator", "registered_on_authenticator_without_user_verification"] {
             stats.declare_probe(p);
         }
         if rec.panic.is_some() || rec.outcome != Outcome2::Done {
@@ -222,6 +233,9 @@ impl Family for C11Family {
             j.fail("rk-option-mapping", format!("the WebAuthn mapping gives rk={expected_rk} for this request on a {cap:?} store, which no authenticator option forbids, but the registration was refused with unsupported-option (the resident-key option sent does not follow the mapping)"));
         }
         if reg.result.is_ok() {
+            if c.actors[0].verification != Some(true) {
+                stats.probe("registered_on_authenticator_without_user_verification");
+            }
             if let Some(sent) = rk_sent {
                 if sent != expected_rk {
                     j.fail("rk-option-mapping", format!("the resident-key option sent to the authenticator is {sent}, the WebAuthn mapping gives {expected_rk} (request {:?}, capability {cap:?})", match kind { OpKind::Register(s) => format!("{:?}", s.sel), OpKind::MakeCredential(s) => format!("rk={}", s.rk), _ => String::new() }));
